@@ -534,6 +534,16 @@ func drivers() []driver {
 		}, 2, 3, func() []call {
 			return []call{protoMarshal("*pYH", valPYH)}
 		}},
+		{"json-failed-marshal-then-maps", func() [][]call {
+			failing := func() any { return map[string]any{"b": 1, "a": make(chan int), "c": "x"} }
+			return [][]call{
+				{jsonMarshal("map[string]any holding a channel", failing), jsonMarshal("nested maps", valNestedMaps)},
+				{jsonMarshal("nested maps", valNestedMaps), jsonMarshal("C", valC)},
+				{jsonMarshal("map[string]RawMessage", valRawMap), jsonMarshal("map[string]any holding a channel", failing)},
+			}
+		}, 2, 3, func() []call {
+			return []call{jsonMarshal("nested maps", valNestedMaps), jsonMarshal("map[string]any holding a channel", func() any { return map[string]any{"a": make(chan int)} })}
+		}},
 		{"mixed", func() [][]call {
 			return [][]call{
 				{jsonMarshal("C", valC), protoSize("M", valM)},
